@@ -36,16 +36,16 @@ func (e *Engine) tryCounterexample(o *Obligation, axioms []axiomTerm, repo, veri
 	if rs == nil {
 		return nil
 	}
-	key := rs.File + "|" + rs.Run
+	key := rs.File + "|" + rs.Run + "|" + opt.property
 	if v, ok := replayOnce.Load(key); ok {
 		return v.(*Cex)
 	}
-	c := runReplay(rs, repo, verif, o.Name)
+	c := runReplay(rs, repo, verif, o.Name, opt.property, opt.seed)
 	replayOnce.Store(key, c)
 	return c
 }
 
-func runReplay(rs *ReplaySpec, repo, verif, obligation string) *Cex {
+func runReplay(rs *ReplaySpec, repo, verif, obligation, property string, seed int) *Cex {
 	tmp, err := os.MkdirTemp("/var/tmp", "verif-replay-")
 	if err != nil {
 		return &Cex{Outcome: "replay-error", Log: err.Error()}
@@ -59,7 +59,7 @@ func runReplay(rs *ReplaySpec, repo, verif, obligation string) *Cex {
 	os.WriteFile(ovPath, data, 0o644)
 	cmd := exec.Command("go", "test", "-overlay", ovPath, "-vet=off", "-count=1", "-timeout", "300s", "-run", "^"+rs.Run+"$", "-v", "./"+rs.PkgDir+"/")
 	cmd.Dir = modDir
-	cmd.Env = append(os.Environ(), "GOFLAGS=-mod=mod", "GOPROXY=off", "GOSUMDB=off", "GOTOOLCHAIN=local", "VERIF_OBLIGATION="+obligation)
+	cmd.Env = append(os.Environ(), "GOFLAGS=-mod=mod", "GOPROXY=off", "GOSUMDB=off", "GOTOOLCHAIN=local", "VERIF_OBLIGATION="+obligation, "VERIF_PROPERTY="+property, fmt.Sprintf("VERIF_SEED=%d", seed))
 	out, err := cmd.CombinedOutput()
 	c := &Cex{Outcome: "NOT-REPRODUCED"}
 	text := string(out)
